@@ -654,7 +654,12 @@ func c12BuilderScript(c *ctx) {
 func c12BuilderReuse(c *ctx) {
 	b := txDataBuilder.NewBuilder()
 	b.Func("first").Bytes([]byte{1, 2}).Int(7)
-	rounds := 1 + c.rng.Intn(3)
+	rounds := 2 + c.rng.Intn(3)
+	first := b.ToBytes()
+	keptBytes := []struct {
+		b   []byte
+		was string
+	}{{first, string(first)}}
 	for r := 0; r < rounds; r++ {
 		b.Clear()
 		f := "fn" + string(rune('A'+c.rng.Intn(26)))
@@ -664,6 +669,19 @@ func c12BuilderReuse(c *ctx) {
 			b.Bytes(a)
 		}
 		out := b.ToString()
+		// the messages a reused builder handed out earlier (as bytes, kept by the caller) must still read what they read then
+		for _, k := range keptBytes {
+			if string(k.b) != k.was {
+				c.fail("monitor", "builder-bytes-changed-later", fmt.Sprintf("the bytes a builder returned earlier (%q) read %q after the builder was cleared and used for another message", k.was, k.b),
+					map[string]interface{}{"earlier": k.was, "now": string(k.b), "rounds_of_clear": r + 1})
+				return
+			}
+		}
+		kb := b.ToBytes()
+		keptBytes = append(keptBytes, struct {
+			b   []byte
+			was string
+		}{kb, string(kb)})
 		c.note("builder-reuse/"+out, true)
 		c.count("builder/reused-roundtrips")
 		pf, pa, err := parsers.NewCallArgsParser().ParseData(out)
